@@ -2,7 +2,7 @@
 
 use crate::engine::*;
 use crate::pipeline::show_out;
-use crate::subject::{rule, rule_owned, Out, Prof, RuleFn};
+use crate::subject::{rule, rule_owned, rule_owned_roomy, Out, Prof, RuleFn};
 use serde_json::json;
 
 /// Run `prof.rulefn(s)` and compare with the expected string; then check
@@ -17,6 +17,11 @@ pub fn check_rule_fn(p: Prof, r: RuleFn, s: &str, expected: &str, idem: bool, st
     st.evaluations += 1;
     if got_owned != got {
         st.violation("owned_vs_borrowed", mk, format!("String argument gives what &str gives: {}", show_out(&got)), show_out(&got_owned));
+    }
+    let got_roomy = rule_owned_roomy(p, r, s);
+    st.evaluations += 1;
+    if got_roomy != got {
+        st.violation("owned_vs_borrowed", mk, format!("String argument with spare capacity gives what &str gives: {}", show_out(&got)), show_out(&got_roomy));
     }
     match &got {
         Out::Ok(o) if o == expected => {
